@@ -20,8 +20,13 @@ def run(tier, seed):
                 exits=("commit", "abort"))
         run_hex(rep, f"HW4xSL direct prune={prune} (slots 0 and 15, branch value)", universe="HW4", values=("S", "L"), prune=prune, props=P)
         run_hex(rep, f"HL4xSL direct prune={prune} (32-byte keys, extensions longer than 32 nibbles)", universe="HL", values=("S", "L"), prune=prune, props=P)
+    for prune in (False, True):
+        run_hex(rep, f"H3xSL pairs of consecutive events on ONE live object (direct + batches) prune={prune}", universe="H3", values=("S", "L"),
+                prune=prune, props=P, batch_len=1, exits=("commit", "abort"), pairs=True)
     if tier == "thorough":
         for prune in (False, True):
+            run_hex(rep, f"H4xSL pairs on one live object prune={prune}", universe="H4", values=("S", "L"), prune=prune, props=P, batch_len=1,
+                    exits=("commit", "abort"), pairs=True)
             run_hex(rep, f"H9xSL direct prune={prune}", universe="H9", values=("S", "L"), prune=prune, props=P)
             run_hex(rep, f"H7xST29L direct prune={prune}", universe="H7", values=("S", "T29", "L"), prune=prune, props=P)
             run_hex(rep, f"HLxSL direct prune={prune}", universe="HL", values=("S", "L"), prune=prune, props=P, forms=("m", "i"))
